@@ -27,7 +27,7 @@ func init() {
 		Phases: func(tier string, seed int64) []Phase {
 			return []Phase{{Name: "binds-plain", Run: func(c *Ctx) { c19Run(c, "plain") }}, {Name: "binds-tls", Run: func(c *Ctx) { c19Run(c, "tls") }}, {Name: "binds-starttls", Run: func(c *Ctx) { c19Run(c, "starttls") }}}
 		},
-		MinObserved: []string{"binds", "binds_expected_success", "binds_expected_failure", "ldap_mutation_steps"},
+		MinObserved: []string{"binds", "binds_expected_success", "binds_expected_failure", "ldap_mutation_steps", "user_sets_checked_with_response_controls_configured"},
 	})
 }
 
@@ -46,10 +46,15 @@ var c19Pool = []c19User{
 	{"cn=d", []string{""}, "empty first password"},
 	{"cn=e", []string{"p1", "p2"}, "several password values"},
 	{"CN=A", []string{"pa"}, "case variant"},
+	{"cn=long", []string{c19Long}, "password longer than 128 bytes"},
+	{"cn=bin", []string{"p\x00q"}, "password with a NUL inside"},
 }
 
-var c19DNs = []string{"cn=a", "cn=ab", "cn=a,dc=x", "CN=A", "cn=", "", "cn=e", "cn=d", "cn=c", "\xffcn=a"}
-var c19PWs = []string{"pa", "pb", "", "p2", "other", "p1"}
+// c19Long: a 200-byte password; its 128-byte prefix and a variant with a different tail are tried as well
+var c19Long = strings.Repeat("0123456789abcdef", 12) + "tail-one"
+
+var c19DNs = []string{"cn=a", "cn=ab", "cn=a,dc=x", "CN=A", "cn=", "", "cn=e", "cn=d", "cn=c", "\xffcn=a", "cn=long", "cn=bin"}
+var c19PWs = []string{"pa", "pb", "", "p2", "other", "p1", "pa\x00", "\x00", "p", "p\x00q", "p\x00", c19Long, c19Long[:128], c19Long[:192] + "tail-two", c19Long + "\x00"}
 
 func c19Pred(users []c19User, anon bool, dn, pw string) bool {
 	if pw == "" && anon {
@@ -177,9 +182,31 @@ func c19Run(c *Ctx, transport string) {
 		}
 		return res.Code, nil
 	}
+	// response controls configured on the directory are decoration: whatever they say, they do not decide a bind
+	ctlSets := [][]gldap.Control{nil}
+	for _, opts := range [][]gldap.Option{
+		{gldap.WithGraceAuthNsRemaining(3)},
+		{gldap.WithSecondsBeforeExpiration(100)},
+		{gldap.WithErrorCode(gldap.BeheraPasswordExpired)},
+		{gldap.WithErrorCode(gldap.BeheraAccountLocked)},
+		{gldap.WithErrorCode(gldap.BeheraChangeAfterReset)},
+	} {
+		if b, err := gldap.NewControlBeheraPasswordPolicy(opts...); err == nil {
+			ctlSets = append(ctlSets, []gldap.Control{b})
+		}
+	}
+	if cs, err := gldap.NewControlString("1.2.3.4", gldap.WithCriticality(true), gldap.WithControlValue("locked")); err == nil {
+		ctlSets = append(ctlSets, []gldap.Control{cs})
+	}
+	checks := 0
 	check := func(users []c19User, anon bool, setSig string) bool {
 		td.SetUsers(c19Entries(users)...)
 		td.SetAllowAnonymousBind(anon)
+		checks++
+		td.SetControls(ctlSets[checks%len(ctlSets)]...)
+		if checks%len(ctlSets) != 0 {
+			c.Count("user_sets_checked_with_response_controls_configured", 1)
+		}
 		for _, dn := range c19DNs {
 			for _, pw := range c19PWs {
 				want := int64(49)
